@@ -297,10 +297,6 @@ func c04Check(e *engine, kind string, p *tak.Position) string {
 }
 
 func init() {
-	opTable["case"] = func(s *Session, a []string) string {
-		s.slots = map[string]interface{}{}
-		return "ok"
-	}
 	opTable["search"] = func(s *Session, a []string) string {
 		p := decPos(a[1])
 		e := newEngine(p.Size(), a[0])
